@@ -918,3 +918,32 @@ Theorem exp_continue c ops o s' e rest :
   estep c (e_final c (e_init c) ops) o = (s', Some (Err e)) ->
   e_run c s' rest = e_run c (e_final c (e_init c) ops) rest.
 Proof. intros H. rewrite (exp_atomic c ops o s' e H). reflexivity. Qed.
+
+(* ---------------------------------------------------------------- unaffected by other agents *)
+Definition e_names (a : Z) (o : eop) : bool :=
+  match o with EAdd b _ | ESet b _ | ERemove b => b =? a | _ => false end.
+
+Lemma e_track_other c a cur o : e_names a o = false -> e_track c a cur o = cur.
+Proof. destruct o; cbn [e_names e_track]; intros H; try rewrite H; reflexivity. Qed.
+
+Lemma e_track_filter c a ops : forall cur,
+  fold_left (e_track c a) ops cur = fold_left (e_track c a) (filter (e_names a) ops) cur.
+Proof.
+  induction ops as [|o t IH]; intros cur; [reflexivity|]. cbn [fold_left filter].
+  destruct (e_names a o) eqn:E; cbn [fold_left]; [apply IH|].
+  rewrite (e_track_other c a cur o E). apply IH.
+Qed.
+
+(* deleting from a history every operation that does not name agent a (adds, moves, removals of other agents,
+   all queries) - and changing the initial capacity - does not change the position a reports *)
+Theorem exp_position_independent c c' ops a :
+  ec_bounds c' = ec_bounds c -> ec_torus c' = ec_torus c ->
+  e_getpos (e_final c (e_init c) ops) a
+  = e_getpos (e_final c' (e_init c') (filter (e_names a) ops)) a.
+Proof.
+  intros Hb Ht. rewrite !exp_position_last_assigned, (e_track_filter c a ops None).
+  generalize (filter (e_names a) ops). intros l. generalize (@None point).
+  induction l as [|o t IH]; intros cur; [reflexivity|]. cbn [fold_left].
+  assert (e_track c a cur o = e_track c' a cur o) as ->; [|apply IH].
+  destruct o; cbn [e_track]; unfold norm_pos; rewrite ?Hb, ?Ht; reflexivity.
+Qed.
